@@ -1,7 +1,6 @@
 package props
 
 import (
-	"context"
 	"fmt"
 	"math"
 	"math/big"
@@ -168,9 +167,11 @@ func evalArray1(src string, data map[string]interface{}) (interface{}, error, bo
 	}
 	var v interface{}
 	var rerr error
-	panicked, pv := core.Call(func() { v, rerr = r.Resolve(context.Background(), sc.Expression) })
+	ctx, release := hostCtx(src)
+	defer release()
+	panicked, pv := core.Call(func() { v, rerr = r.Resolve(ctx, sc.Expression) })
 	if !panicked && rerr == nil {
-		if e2 := secondEvaluationOn(r, sc, src, context.Background(), data, outcome(v, nil, false, nil)); e2 != nil {
+		if e2 := secondEvaluationOn(r, sc, src, ctx, data, outcome(v, nil, false, nil)); e2 != nil {
 			return nil, e2, false, nil
 		}
 	}
